@@ -116,6 +116,11 @@ pub(crate) fn ffsampling(
         LdlTree::Leaf(value) => {
             let z0 = sampler_z(t.0.coefficients[0].re, value[0].re, parameters.sigmin, rng);
             let z1 = sampler_z(t.1.coefficients[0].re, value[0].re, parameters.sigmin, rng);
+            #[cfg(falcon_rust_verif)]
+            {
+                crate::verif_hooks::record_leaf(t.0.coefficients[0].re, value[0].re, z0);
+                crate::verif_hooks::record_leaf(t.1.coefficients[0].re, value[0].re, z1);
+            }
             (
                 Polynomial::new(vec![Complex64::new(z0 as f64, 0.0)]),
                 Polynomial::new(vec![Complex64::new(z1 as f64, 0.0)]),
